@@ -12,7 +12,7 @@ import (
 // Header()/RecvMsg/Trailer() in the client, and under every schedule.
 
 func init() {
-	register(&Property{ID: "C03", Scenarios: c03Scenarios, Oracle: c03Oracle})
+	register(&Property{ID: "C03", Timers: true, Scenarios: c03Scenarios, Oracle: c03Oracle})
 }
 
 func permutations(a []string) [][]string {
@@ -79,6 +79,14 @@ func c03Scenarios(tier string) []*Scenario {
 			add(tr, "", RPC{Kind: "unary", Client: []string{"I"}, Handler: h})
 			add(tr, "cancel", RPC{Kind: "unary", Client: []string{"I"}, Handler: h})
 		}
+		// a goroutine the handler left behind sets headers after the handler returned, while the client has
+		// not yet taken the final frames: refused, or else delivered
+		if tr == "inproc" {
+			for _, ret := range []string{"ret:ok", "ret:st:5"} {
+				add(tr, "", RPC{Kind: "bd", Client: []string{"S0", "C", "H", "R*", "T"}, Handler: []string{"r*", "h:a", "go", "t:c", ret}, Handler2: []string{"wd", "h:b"}})
+				add(tr, "", RPC{Kind: "ss", Client: []string{"S0", "C", "R*", "H", "T"}, Handler: []string{"r", "go", "s0", "t:c", ret}, Handler2: []string{"wd", "h:b"}})
+			}
+		}
 		// a second handler goroutine sets headers while the first message is being sent: if it was
 		// told nil, the pairs reach the caller; otherwise it was refused
 		for _, ret := range []string{"ret:ok", "ret:st:5"} {
@@ -120,6 +128,9 @@ func c03Oracle(sc *Scenario, rec *Rec, s *mc.Sched) []mc.Violation {
 			if len(op) > 1 && op[0] == 's' && op[1] >= '0' && op[1] <= '9' {
 				racing = true
 			}
+		}
+		if len(rpc.Handler2) > 0 && rpc.Handler2[0] == "wd" {
+			racing = true // runs after the handler's return: accepted means delivered
 		}
 		if racing {
 			// what must arrive is what the handler was told had been accepted
